@@ -58,7 +58,8 @@ def gen_body(rng):
     if r < 0.1:
         # requests carrying class descriptors (resolvable, bare, missing, invalid): translation must leave no trace
         bean = rng.choice(BEANS)
-        e = {"method": rng.choice(["echo", "const0", "kw"]), "id": rng.choice([1, "b"]),
+        e = {"method": rng.choice(["echo", "const0", "kw"]),
+             "id": rng.choice([1, "b"]) if rng.random() < 0.75 else rng.choice(BEANS[:3]),
              "params": [bean] if rng.random() < 0.7 else {"v": [bean]}}
         if rng.random() < 0.7:
             e["jsonrpc"] = "2.0"
@@ -121,6 +122,52 @@ def judge_reply(ctx, fresh, cfg, mode, body, out, fx):
                                         {"response": obj})
     ctx.case((cfg, mode.split("-")[0], body), nontrivial=True)
     return dispatchable
+
+
+DESCRIPTOR_IDS = [{"__jsonclass__": ["decimal.Decimal", ["7"]]}, {"__jsonclass__": ["fractions.Fraction", [1, 3]]},
+                  {"__jsonclass__": ["types.SimpleNamespace", {"a": 1}]}, {"__jsonclass__": ["builtins.set", [[1, 2]]]},
+                  [{"__jsonclass__": ["decimal.Decimal", ["1.5"]]}]]
+
+
+def descriptor_id_forms(ctx):
+    """Calls whose id holds a class descriptor (an object the server may be unable to write back): whatever is answered,
+    every response object is in the form its request calls for - also the neighbours in the same batch."""
+    for cfg in CFGS:
+        fx = make_fixture(cfg)
+        sform = "2.0" if fx.version >= 2 else "1.0"
+        for did in DESCRIPTOR_IDS:
+            for m in ("echo", "fail", "nosuch", "two"):
+                for two in (True, False):
+                    e = {"method": m, "params": [1], "id": did}
+                    if two:
+                        e["jsonrpc"] = "2.0"
+                    form = sform if two else "1.0"
+                    n1 = {"method": "echo", "params": [1], "id": 41}
+                    n2 = {"jsonrpc": "2.0", "method": "echo", "params": [2], "id": 42}
+                    for label, batch, forms in (("single", e, [form]), ("with-1.0-call", [n1, e], ["1.0", form]),
+                                                ("with-2.0-call", [e, n2], [form, sform])):
+                        body = json.dumps(batch)
+                        case = {"config": list(cfg), "replay": "descriptor-id", "body": body}
+                        ctx.case((cfg, "descriptor-id", body), nontrivial=True)
+                        ctx.count("judged:descriptor-id-forms")
+                        try:
+                            out = fx.dispatch(body)
+                            val = json.loads(out)
+                        except BaseException as ex:  # noqa
+                            ctx.violate("descriptor-id:raised-%s" % type(ex).__name__, case, {"raised": ex})
+                            continue
+                        objs = [val] if isinstance(val, dict) else val if isinstance(val, list) else []
+                        objs = [o for o in objs if isinstance(o, dict)]
+                        if len(objs) == len(forms):
+                            pairs = list(zip(objs, forms))
+                        else:
+                            # fewer objects than calls (C03's concern): every request of these bodies with the same marker
+                            # calls for the same form, so a single object can still be judged when all forms agree
+                            pairs = [(o, forms[0]) for o in objs] if len(set(forms)) == 1 else []
+                        for obj, f in pairs:
+                            if oracle.response_form(obj) != f:
+                                ctx.violate("form:%s-for-%s:call-whose-id-holds-a-class-descriptor"
+                                            % (oracle.response_form(obj), f), case, {"response": obj, "position": label})
 
 
 def check_config(ctx, trap, fx, cfg, before, mode):
@@ -294,6 +341,8 @@ def run(ctx):
     rng = ctx.rng
     if ctx.shard == 0:
         copy_independence(ctx)
+    if ctx.shard == 1 % ctx.nshards:
+        descriptor_id_forms(ctx)
     trap = guards.ConfigTrap()
     trap.install()
     inj = inject.Injector([S, J, C, JC])
